@@ -5,8 +5,9 @@
 # stores everything under /verif/seeded/<ID>-<N>/.
 ID=$1; N=$2; shift 2
 CHECKS=${@:-$ID}
-WT=/tmp/wt/$ID
-OUT=/verif/seeded/$ID-$N
+WT=${WT_ROOT:-/tmp/wt}/$ID
+TAG=${SEED_TAG:-}
+OUT=/verif/seeded/$ID-$TAG$N
 mkdir -p $OUT
 cd $WT || exit 2
 git checkout -q -- cobyqa
@@ -26,13 +27,14 @@ for c in $CHECKS; do
   echo "check $c exit=$r :: $(grep -E '^  C[0-9]+\.' /tmp/seed_check_$c.log | head -3 | tr '\n' ';')"
   RES="$RES $c:$r"
 done
-/venv/bin/python - "$ID" "$N" "$T" "$CLEAN" "$MUT" "$RES" <<'PY'
+/venv/bin/python - "$ID" "$N" "$T" "$CLEAN" "$MUT" "$RES" "$WT" "$OUT" <<'PY'
 import json, sys
-ID, N, T, CLEAN, MUT, RES = sys.argv[1:7]
-meta = json.load(open('/tmp/wt/%s/out/meta%s.json' % (ID, N)))
-meta.update({"source": "independent sub-agent, scratch worktree /tmp/wt/%s" % ID,
+ID, N, T, CLEAN, MUT, RES, WT, OUT = sys.argv[1:9]
+meta = json.load(open('%s/out/meta%s.json' % (WT, N)))
+meta.update({"source": "independent sub-agent, scratch worktree %s" % WT,
              "confirmed": {"existing_tests_with_change": T.strip(), "demo_exit_clean_tree": int(CLEAN), "demo_exit_with_change": int(MUT)},
              "checks_run_quick": {kv.split(':')[0]: int(kv.split(':')[1]) for kv in RES.split()},
-             "how_to_rerun": "git -C /repo apply /verif/seeded/%s-%s/patch.diff; ./check <id>; git -C /repo checkout -- ." % (ID, N)})
-json.dump(meta, open('/verif/seeded/%s-%s/meta.json' % (ID, N), 'w'), indent=1)
+             "breaks_property": ID,
+             "how_to_rerun": "git -C /repo apply %s/patch.diff; ./check %s; git -C /repo checkout -- ." % (OUT, ID)})
+json.dump(meta, open('%s/meta.json' % OUT, 'w'), indent=1)
 PY
